@@ -145,8 +145,14 @@ def construct_case(chk, rng, mode=None):
     call = {"id": "x", "k": "x", "e": ["c", XR, [cur(uc), ume, cur(tc), tae]]}
     steps = [call if mode is None else {"setmode": mode, "body": [call]}]
     if not invalid:
-        inv = {"k": "inv", "e": M(V("x"), "inverted")}
-        steps.append(inv if mode is None else {"setmode": mode, "body": [inv]})
+        inv = [{"id": "i1", "k": "inv", "e": M(V("x"), "inverted")},
+               # the inverse of the inverse is judged against the inverse's
+               # own stored rate, and inverting again must not depend on
+               # the earlier call
+               {"k": "inv2", "e": M(V("i1"), "inverted")},
+               {"k": "invb", "e": M(V("x"), "inverted")}]
+        steps.extend(inv if mode is None
+                     else [{"setmode": mode, "body": inv}])
     info = dict(uc=uc, um=str(um), tc=tc, ta=str(ta), umk=umk, tak=tak,
                 invalid=invalid, mode=mode)
 
@@ -215,9 +221,38 @@ def construct_case(chk, rng, mode=None):
                 val(qi[2]) != pi["rate"]:
             bad.append("quotation of the inverted rate is inconsistent: %s"
                        % (qi,))
+        pb = parse_rate(obs.get("invb"))
+        if pb is None or (pb["uc"], pb["tc"], pb["um"], pb["ta"]) != \
+                (pi["uc"], pi["tc"], pi["um"], pi["ta"]):
+            bad.append("inverting the same rate a second time gives %s, "
+                       "the first time %s" % (brief(obs.get("invb")),
+                                              brief(inv)))
         if bad:
             chk.violation("inverted(%s): %s" % (x.get("repr"),
                                                 "; ".join(bad)),
+                          dict(info=info, obs=obs, steps=steps), "inverted")
+            return
+        # inverse of the inverse: reciprocal of the inverse's stored rate
+        inv2 = obs.get("inv2")
+        exact2 = 1 / pi["rate"]
+        p2 = parse_rate(inv2)
+        if p2 is None:
+            if exact2 < EPS and is_exc(inv2, "ValueError"):
+                chk.count("inverse too small (accepted rejection)")
+                return
+            chk.violation("inverted().inverted() failed: %s" % brief(inv2),
+                          dict(info=info, obs=obs, steps=steps), "inverted")
+            return
+        chk.count("inverse of an inverse")
+        if p2["ta"] != p["ta"] or p2["um"] != p["um"]:
+            chk.count("inverse of an inverse differs from the original")
+        bad = []
+        if p2["uc"] != uc or p2["tc"] != tc:
+            bad.append("currencies %s->%s" % (p2["uc"], p2["tc"]))
+        bad += normal_form_problems(p2, exact2, bound_strict=strict)
+        if bad:
+            chk.violation("%s.inverted() of an inverted rate: %s" %
+                          (inv.get("repr"), "; ".join(bad)),
                           dict(info=info, obs=obs, steps=steps), "inverted")
     return Case(steps, judge, info)
 
@@ -310,7 +345,8 @@ def run(chk, R, tier, seed):
     rng = random.Random("C09-%d" % seed)
     for c in ("non-power-of-ten multiple", "input|um:int", "input|um:D",
               "input|um:F", "input|um:s", "input|ta:D", "input|ta:F",
-              "input|ta:fl", "input|ta:s", "inverted",
+              "input|ta:fl", "input|ta:s", "inverted", "inverse of an inverse",
+              "inverse of an inverse differs from the original",
               "triangulation|mul-ab-bc", "triangulation|mul-bc-ab",
               "triangulation|div-ab-ac", "triangulation|div-ac-bc",
               "triangulation|noshare-mul", "triangulation|noshare-div",
